@@ -4,10 +4,10 @@ From Coq Require Import Arith Lia Bool List.
 From RecordUpdate Require Import RecordSet.
 Import RecordSetNotations.
 Import ListNotations.
-From H2V Require Import Impl.Teardown Proofs.TeardownGen Proofs.TeardownCliInv Proofs.TeardownCliInv1 Proofs.TeardownCliInv2 Proofs.TeardownCliInv3 Proofs.TeardownCliInv4 Proofs.TeardownCliLocks Proofs.TeardownCliInv5 Proofs.TeardownCliLive1 Proofs.TeardownCliLive4.
+From H2V Require Import Impl.Teardown Proofs.TeardownGen Proofs.TeardownCliInv Proofs.TeardownCliInv1 Proofs.TeardownCliInv2 Proofs.TeardownCliInv3 Proofs.TeardownCliInv4 Proofs.TeardownCliLocks Proofs.TeardownCliInv5 Proofs.TeardownCliLive1 Proofs.TeardownCliGone0 Proofs.TeardownCliLive4.
 
 Module CliL6.
-Import Cli CliP CliP2 CliL CliL2 CliL5.
+Import Cli CliP CliP2 CliL CliL2 CliGd CliL5.
 
 Ltac easy_fin ::= solve [auto | congruence | lia | tauto | (intuition congruence)
                          | (intuition (try congruence; try lia))
@@ -40,7 +40,7 @@ Notation "P ~> Q" := (leadsto r P Q) (at level 70).
 Notation ensures := (lt_ensures guard eff r (Inv cap) Inv_run).
 Notation ensures_s := (lt_ensures_s guard eff r (Inv cap) Inv_run).
 Let Fwl : sfair g_wl r := proj1 (proj2 (proj2 (proj2 F))).
-Let Fbody : sfair g_body r := proj2 (proj2 (proj2 (proj2 (proj2 (proj2 (proj2 F)))))).
+Let Fbody : sfair g_body r := proj1 (proj2 (proj2 (proj2 (proj2 (proj2 (proj2 (proj2 F))))))).
 Let Wwl := sfair_fair guard eff r g_wl Fwl.
 Let Wbody := sfair_fair guard eff r g_body Fbody.
 Notation rl_release := (CliL2.rl_release cap cap_pos r F R0 NS).
@@ -54,13 +54,6 @@ Lemma wl_t_stable : stable guard eff (Inv cap) wl_t.
 Proof. wunf; stab. Qed.
 
 (* -- (D) with the socket closed and the write loop in its teardown, the read loop ends -- *)
-Definition rlr (p : rl_pc) : nat :=
-  match p with
-  | RDone => 0 | RClose CWrite => 1 | RClose CLock => 2 | RClose CDone => 3 | RClose CCas => 4
-  | RExit => 5 | RRead => 6 | RIter false => 7 | ROut => 8 | RPost k _ => 9 + 2 * k
-  | RPostW k _ => 10 + 2 * k | RHold _ => 14 | RAcq => 15 | RIter true => 16
-  end.
-Definition rm (s : state) : nat := (if rdy s then 20 else 0) + rlr (rl s).
 Definition PD (s : state) : Prop := sclosed s = true /\ done s = true /\ wl_t s.
 
 Lemma PD_stable : stable guard eff (Inv cap) PD.
